@@ -8,10 +8,10 @@ def B(qc, tc, **kw):
 BUDGET = {
     "C04": B(2800, 16800),
     "C09": B(2800, 16800),
-    "C01": B(3000, 10000),
-    "C02": B(3000, 10000, foreign=["ASSERT:m_activeOp"]),
+    "C01": B(3000, 10000, cpu_limit=120),
+    "C02": B(3000, 10000, cpu_limit=120, foreign=["ASSERT:m_activeOp"]),
     "C03": B(2200, 13200, foreign=["ASSERT:m_activeOp"]),
-    "C12": B(2400, 14400, foreign=["ASSERT:m_activeOp"]),
+    "C12": B(2400, 14400, cpu_limit=120, foreign=["ASSERT:m_activeOp"]),
     "C07": B(4500, 15000),
     "C08": B(4500, 15000),
     "C20": B(4500, 27000),
